@@ -115,3 +115,279 @@ def peer_choked(F):
 
 def peer_interested(F):
     return peer_flag(F, 'RecvInterested', True, 'peer-is-interested flag')
+
+
+# ---- choking policy -------------------------------------------------------------------------------------------------
+
+def rotation_fn(F):
+    return C.one(C.fns_constructing(F, r'^commands::BroadCmd$', 'SendOwnState'), 'function building BroadCmd::SendOwnState')
+
+
+def peer_am_choked(F):
+    """Peer flag "we choke this peer": the bool field of Peer whose every store in the rotation is followed, before any other
+    crate-visible effect, by an insert of the same constant into the HashMap<String, bool> that is broadcast"""
+    def go():
+        R = rotation_fn(F)
+        bools = {fl['name'] for fl in F.adts['peer::Peer']['variants'][0]['fields'] if fl['ty'] == 'bool'}
+        by_field = {}
+        for bi, si, s in R.stores():
+            p = access_path(R.expr_place(s['lhs'])) or ''
+            fld = p.split('.')[-1]
+            c = const_of(R.expr_rvalue(s['rv']))
+            if fld in bools and c is not None:
+                # next real call reachable from the store
+                paired = False
+                seen = set()
+                work = [bi]
+                while work:
+                    b = work.pop()
+                    if b in seen:
+                        continue
+                    seen.add(b)
+                    t = R.blocks[b]['t']
+                    if t['k'] == 'call' and b in mirq.real_calls(R):
+                        e = R.expr_call(b)
+                        nm = e[4].get('name')
+                        if nm == 'insert' and len(e[2]) == 3 and const_of(e[2][2]) and const_of(e[2][2])[0] == c[0]:
+                            paired = True
+                            continue
+                        if nm in ('clone', 'to_string', 'to_owned', 'deref'):
+                            work.extend(R.succs(b))
+                            continue
+                        paired = paired or False
+                        continue
+                    work.extend(x for x in R.succs(b) if not R.blocks[x].get('cleanup'))
+                by_field.setdefault(fld, []).append(paired)
+        # the field with the most paired stores (a missing pairing is the rule's business, not the resolver's)
+        score = sorted(((sum(1 for p in ps if p), f) for f, ps in by_field.items()), reverse=True)
+        if not score or score[0][0] == 0 or (len(score) > 1 and score[1][0] == score[0][0]):
+            raise AnchorMissing('"we choke this peer" flag: stores paired with a broadcast-map insert: %s' % by_field)
+        return score[0][1]
+    return _memo(F, 'peer_am_choked', go)
+
+
+def peer_optimistic(F):
+    """Peer flag "this peer holds the optimistic slot": the other bool field of Peer the rotation writes"""
+    def go():
+        R = rotation_fn(F)
+        bools = {fl['name'] for fl in F.adts['peer::Peer']['variants'][0]['fields'] if fl['ty'] == 'bool'}
+        w = set()
+        for bi, si, s in R.stores():
+            fld = (access_path(R.expr_place(s['lhs'])) or '').split('.')[-1]
+            if fld in bools:
+                w.add(fld)
+        w.discard(peer_am_choked(F))
+        if len(w) != 1:
+            raise AnchorMissing('optimistic-slot flag: rotation writes %s besides the choke flag' % sorted(w))
+        return list(w)[0]
+    return _memo(F, 'peer_optimistic', go)
+
+
+def variant_field(F, adt, variant, ty_re, what):
+    def go():
+        for v in F.adts[adt]['variants']:
+            if v['name'] == variant:
+                hits = [fl['name'] for fl in v['fields'] if re.search(ty_re, fl['ty'])]
+                if len(hits) == 1:
+                    return hits[0]
+                raise AnchorMissing('%s: %s::%s has %d fields of type /%s/' % (what, adt, variant, len(hits), ty_re))
+        raise AnchorMissing('%s::%s not found' % (adt, variant))
+    return _memo(F, ('vfield', adt, variant, ty_re), go)
+
+
+def own_state_map(F):
+    return variant_field(F, 'commands::BroadCmd', 'SendOwnState', r'HashMap<std::string::String, bool>', 'broadcast choke map')
+
+
+def reply_unchoke_flag(F):
+    """field of BitfieldCmd::SendState that makes the connection task send Unchoke when true (identified at the consumer)"""
+    def go():
+        names = [fl['name'] for v in F.adts['commands::BitfieldCmd']['variants'] if v['name'] == 'SendState' for fl in v['fields'] if fl['ty'] == 'bool']
+        hits = set()
+        for g in F.user_fns():
+            for sb in g.switches():
+                ce = g.cond(sb)[0]
+                p = access_path(ce) or ''
+                last = p.split('.')[-1]
+                if last in names and g.bool_edges(sb):
+                    tt, ff = g.bool_edges(sb)
+                    un = [bb for bb in mirq.real_calls(g) if 'send_msg' in (g.blocks[bb]['t'].get('callee') or '') and
+                          (g.blocks[bb]['t'].get('gargs') or [''])[0].endswith('Unchoke')]
+                    if any(bb in g.only_via_edge((sb, tt)) for bb in un):
+                        hits.add(last)
+        if len(hits) != 1:
+            raise AnchorMissing('reply flag that triggers Unchoke: %s' % sorted(hits))
+        return list(hits)[0]
+    return _memo(F, 'reply_unchoke_flag', go)
+
+
+# ---- connection task (PeerHandler) ---------------------------------------------------------------------------------
+
+PH = 'peer_handler::PeerHandler'
+
+
+def rx_slot(F):
+    """PeerHandler field holding the assembly state of the piece being downloaded"""
+    return field(F, PH, r'^std::option::Option<peer_handler::PieceRx>$', 'download assembly slot')
+
+
+def tx_slot(F):
+    """PeerHandler field caching the piece loaded for upload"""
+    return field(F, PH, r'^std::option::Option<peer_handler::PieceTx>$', 'upload cache slot')
+
+
+def tx_buff(F):
+    return field(F, 'peer_handler::PieceTx', r'^std::vec::Vec<u8>$', 'upload cache bytes')
+
+
+def tx_index(F):
+    return field(F, 'peer_handler::PieceTx', r'^usize$', 'upload cache piece index')
+
+
+def handler_own_id(F):
+    return field(F, PH, r'^\[u8; PEER_ID_SIZE\]$', 'own peer id of the connection task')
+
+
+def handler_expected_id(F):
+    return field(F, PH, r'^std::option::Option<\[u8; PEER_ID_SIZE\]>$', 'expected peer id')
+
+
+def handler_info_hash(F):
+    return field(F, PH, r'^\[u8; HASH_SIZE\]$', 'info-hash of the connection task')
+
+
+def handler_pieces_num(F):
+    return field(F, PH, r'^usize$', 'piece count of the connection task')
+
+
+def session_own_id(F):
+    return field(F, 'session::Session', r'^\[u8; PEER_ID_SIZE\]$', 'own peer id of the manager')
+
+
+def session_candidates(F):
+    return field(F, 'session::Session', r'^std::vec::Vec<\(std::string::String, \[u8; PEER_ID_SIZE\]\)>$', 'peer candidates')
+
+
+def session_tracker(F):
+    return field(F, 'session::Session', r'^session::Job<commands::TrackerCmd>$', 'tracker task handle')
+
+
+def session_extractor(F):
+    return field(F, 'session::Session', r'^session::Job<commands::ExtractorCmd>$', 'extractor task handle')
+
+
+def reqdata_hash(F):
+    return field(F, 'commands::ReqData', r'^\[u8; HASH_SIZE\]$', 'expected hash in the request data')
+
+
+def handler_state_flag(F, variant, value, what):
+    """'<state field>.<flag>' of PeerHandler: the bool of its State that the handler of Frame::<variant> sets to `value`"""
+    def go():
+        D, sbs = C.frame_dispatch(F)
+        disp = max(sbs, key=lambda s: len(D.cond(s)[1]))
+        tgt, region = C.arm_region(D, disp, variant)
+        region = set(region) | {tgt}
+        hits = set()
+        for b, t in C.local_calls(F, D):
+            if b in region:
+                body = F.body(t)
+                if body is None:
+                    continue
+                for bi, si, s in body.stores():
+                    p = access_path(body.expr_place(s['lhs'])) or ''
+                    c = const_of(body.expr_rvalue(s['rv']))
+                    if p.startswith('self.') and p.count('.') == 2 and c is not None and body.expr_rvalue(s['rv'])[3:4] == ('bool',) and bool(c[0]) == value:
+                        hits.add(p[5:])
+        if len(hits) != 1:
+            raise AnchorMissing('%s: handler of Frame::%s sets %s' % (what, variant, sorted(hits)))
+        return list(hits)[0]
+    return _memo(F, ('hflag', variant, value), go)
+
+
+def handler_choked(F):
+    """'peer_state.choked': the connection task's flag "the peer is choking us" """
+    return handler_state_flag(F, 'Choke', True, 'connection-task flag: peer chokes us')
+
+
+def conn_addr_path(F):
+    """'self.<connection>.<addr>': the connection's own address string inside PeerHandler"""
+    c = field(F, PH, r'^connection::Connection$', 'connection of the task')
+    a = field(F, 'connection::Connection', r'^std::string::String$', 'address of a connection')
+    return 'self.%s.%s' % (c, a)
+
+
+# ---- metainfo -------------------------------------------------------------------------------------------------------
+
+MI = 'metainfo::Metainfo'
+
+
+def meta_parse(F):
+    return C.one([f for f in F.user_fns() if mirq.agg_sites(f, r'^metainfo::Metainfo$')], 'function building Metainfo')
+
+
+def keys_read(f):
+    out = []
+    for bb in mirq.real_calls(f):
+        e = f.expr_call(bb)
+        if e[4].get('name') == 'get' and len(e[2]) == 2:
+            for x in walk(e[2][1], inl=False):
+                if x[0] == 'bytes':
+                    out.append(bytes(x[1]).decode('latin1'))
+    return out
+
+
+def meta_string_field(F, key):
+    """the String field of Metainfo that the parser fills from dictionary key `key`"""
+    def go():
+        P = meta_parse(F)
+        strings = [fl['name'] for fl in F.adts[MI]['variants'][0]['fields'] if fl['ty'] == 'std::string::String']
+        hits = []
+        for bi, si, e in mirq.agg_sites(P, r'^metainfo::Metainfo$'):
+            fields = dict(e[4])
+            for n in strings:
+                x = mirq.init_of(fields.get(n, ('other', '')))
+                while x[0] in ('try', 'cast'):
+                    x = x[1]
+                if x[0] == 'call' and x[1] in F.fns and keys_read(F.fn(x[1]))[-1:] == [key]:
+                    hits.append(n)
+        if len(set(hits)) != 1:
+            raise AnchorMissing('Metainfo string field read from key "%s": %s' % (key, hits))
+        return hits[0]
+    return _memo(F, ('meta_string', key), go)
+
+
+def meta_announce(F):
+    return meta_string_field(F, 'announce')
+
+
+def meta_name(F):
+    return meta_string_field(F, 'name')
+
+
+def meta_piece_length(F):
+    return field(F, MI, r'^u64$', 'piece length')
+
+
+def meta_hashes(F):
+    return field(F, MI, r'^std::vec::Vec<\[u8; HASH_SIZE\]>$', 'piece hashes')
+
+
+def meta_files(F):
+    return field(F, MI, r'^std::vec::Vec<metainfo::File>$', 'file list')
+
+
+def meta_info_hash(F):
+    return field(F, MI, r'^\[u8; HASH_SIZE\]$', 'info-hash')
+
+
+def file_length(F):
+    return field(F, 'metainfo::File', r'^u64$', 'file length')
+
+
+def file_path(F):
+    return field(F, 'metainfo::File', r'^std::string::String$', 'file path')
+
+
+def mentions_field(e, adt, name):
+    """expression e (helpers seen through) reads field `name` of struct `adt`"""
+    return any(x[0] == 'field' and len(x) > 3 and x[3] == adt and x[2] == name for x in walk(e))
